@@ -287,8 +287,9 @@ impl Prop for C01 {
         }
         match ro.check(CheckOptions::default().read_data(true)) {
             Ok(res) => {
-                if let Err(e) = res.is_ok() {
-                    rep.violation(format!("C01/check-reports-error:{}", classify(&etext(&e))), etext(&e));
+                let errs = common::check_errors(&res);
+                if let Some(first) = errs.first() {
+                    rep.violation(format!("C01/check-reports-error:{}", classify(first)), errs.join(" | "));
                 }
             }
             Err(e) => rep.violation(format!("C01/check-failed:{}", classify(&etext(&e))), etext(&e)),
